@@ -292,6 +292,18 @@ structure St where
   /-- last `topic` answer of the implementation per (stream, topic): (topic size, per-partition (id, msgs, size)),
   valid until the next state-changing operation -/
   lastTopic : List ((Nat × Nat) × (Nat × List (Nat × Nat × Nat))) := []
+  /-- server confirmation is no-wait: a batch becomes visible when the persister task has written it -/
+  nowait : Bool := false
+  /-- no-wait only: nothing is on its way to the log (set by `settle` / `release`, cleared by `send`, `hold`) -/
+  settled : Bool := true
+  held : Bool := false
+  /-- concurrent stress (C12): acknowledged sends (begin, end, producer, seq, ids), the linearisation
+  given so far, concurrent polls (begin, end, off, count, answer) -/
+  xacks : List (Nat × Nat × Nat × Nat × List Nat) := []
+  xlin : List (Nat × Nat × Nat × Nat) := []
+  xpolls : List (Nat × Nat × Nat × Nat × String) := []
+
+def St.relaxed (st : St) : Bool := st.nowait && !st.settled
 
 def St.sys (st : St) : Sys := st.asys.sys
 
@@ -603,6 +615,81 @@ def authzCheck (st : St) (aop : AOp) (opS impl : String) : List String :=
       if Perm.Grants perms cp then [] else
         [s!"SPEC-VIOL {st.line} class=unauthorized-allowed op={opS} user={u} needs={repr cp} impl={impl}"]
 
+/-- `ok pid cur a,b,c` against `ok pid cur a,b,c,d,…`: same partition and head, and the implementation's
+messages are a prefix of the expected ones (no-wait: the rest is still on its way to the log) -/
+def pollPrefixOk (exp impl : String) : Bool :=
+  let et := exp.splitOn " "
+  let it := impl.splitOn " "
+  if et.headD "" != "ok" || it.headD "" != "ok" then exp == impl else
+  let el := ((et.getD 3 "").splitOn ",").filter (· ≠ "")
+  let il := ((it.getD 3 "").splitOn ",").filter (· ≠ "")
+  et.getD 1 "" == it.getD 1 "" && et.getD 2 "" == it.getD 2 "" && il.isPrefixOf el
+
+def idsOfSpec (ms : String) : List Nat :=
+  (ms.splitOn ",").filterMap (fun m => ((m.splitOn ":").headD "").toNat?)
+
+/-- C12 oracles for the concurrent polls of a stress run, judged against the final content `final` of the
+partition (specification state after the linearisation has been replayed). -/
+def stressJudge (st : St) (final : List Msg) : List String := Id.run do
+  let mut out : List String := []
+  let ackOfId (id : Nat) : Option (Nat × Nat × Nat × Nat × List Nat) := st.xacks.find? (fun a => a.2.2.2.2.contains id)
+  -- every acknowledged batch is in the linearisation exactly once
+  let linKeys := st.xlin.map (fun l => (l.2.2.1, l.2.2.2))
+  let ackKeys := st.xacks.map (fun a => (a.2.2.1, a.2.2.2.1))
+  if !(ackKeys.all linKeys.contains && linKeys.all ackKeys.contains && linKeys.length == ackKeys.length) then
+    out := out ++ [s!"SPEC-VIOL {st.line} class=stress-linearisation-incomplete acks={ackKeys.length} lin={linKeys.length}"]
+  -- every message of every acknowledged batch is stored exactly once, the batch on consecutive offsets
+  for a in st.xacks do
+    let ids := a.2.2.2.2
+    let offs := ids.map (fun id => (final.filter (fun m => m.id == id)).map (·.off))
+    if !(offs.all (fun l => l.length == 1)) then
+      out := out ++ [s!"SPEC-VIOL {st.line} class=stress-lost-or-duplicated producer={a.2.2.1} seq={a.2.2.2.1} offsets={offs}"]
+    else
+      let fl := offs.flatten
+      let ok := (fl.zip (fl.drop 1)).all (fun p => p.2 == p.1 + 1)
+      if !ok then
+        out := out ++ [s!"SPEC-VIOL {st.line} class=stress-batch-torn producer={a.2.2.1} seq={a.2.2.2.1} offsets={fl}"]
+  for p in st.xpolls do
+    let (b, e, off, count, ans) := p
+    let at' := ans.splitOn " "
+    if at'.headD "" != "ok" then
+      out := out ++ [s!"SPEC-VIOL {st.line} class=stress-poll-error poll={off}+{count} impl={ans}"]
+    else
+      let ents := ((at'.getD 3 "").splitOn ",").filter (· ≠ "")
+      let offs := ents.map (fun x => ((x.splitOn ":").headD "").toNat?.getD 0)
+      -- genuine: each returned message is the accepted message at that offset
+      let genuine := ents.all (fun x =>
+        let o := ((x.splitOn ":").headD "").toNat?.getD 0
+        match final.find? (fun m => m.off == o) with
+        | some m => showMsg st.enc m == x
+        | none => false)
+      if !genuine then
+        out := out ++ [s!"SPEC-VIOL {st.line} class=stress-poll-not-genuine poll={off}+{count} impl={ans}"]
+      -- contiguous from the requested offset (or from the earliest retained one)
+      let first := max off ((final.head?.map (·.off)).getD 0)
+      let contiguous := (offs.zip (offs.drop 1)).all (fun q => q.2 == q.1 + 1) &&
+        (offs.head?.map (· == first)).getD true && offs.length ≤ count
+      if !contiguous then
+        out := out ++ [s!"SPEC-VIOL {st.line} class=stress-poll-not-contiguous poll={off}+{count} impl={ans}"]
+      -- nothing from the future: the batch of a returned message was sent before the poll was answered
+      let future := ents.any (fun x =>
+        let id := ((x.splitOn ":").getD 1 "").toNat?.getD 0
+        match ackOfId id with
+        | some a => e < a.1
+        | none => false)
+      if future then
+        out := out ++ [s!"SPEC-VIOL {st.line} class=stress-poll-from-future poll={off}+{count} impl={ans}"]
+      -- wait-confirmation: what was acknowledged before the poll was sent is in the answer
+      if !st.nowait then
+        let missing := st.xacks.any (fun a =>
+          a.2.1 < b && a.2.2.2.2.any (fun id =>
+            match final.find? (fun m => m.id == id) with
+            | some m => off ≤ m.off && m.off < off + count && !offs.contains m.off
+            | none => false))
+        if missing then
+          out := out ++ [s!"SPEC-VIOL {st.line} class=stress-ack-not-visible poll={off}+{count} begin={b} impl={ans}"]
+  return out
+
 def stepLine (st : St) (raw : String) : St × List String :=
   let st := { st with line := st.line + 1 }
   let (opS, implS) := match raw.splitOn "\t" with
@@ -611,17 +698,62 @@ def stepLine (st : St) (raw : String) : St × List String :=
     | a :: rest => (a, ("\t".intercalate rest).trimAscii.toString)
     | [] => ("", "")
   let toks := (opS.trimAscii.toString.splitOn " ").filter (· ≠ "")
+  -- x-lin <b> <e> <producer> <seq> <s> <t> <pid> <msgs>: the next batch of the linearisation of a stress
+  -- run; it must respect real time (a send that was answered before another was issued comes first)
+  -- and is then executed by the model as an ordinary send
+  let (st, toks, linMsgs) : St × List String × List String :=
+    if toks.headD "" == "x-lin" then
+      let n (i : Nat) : Nat := (toks.getD i "").toNat?.getD 0
+      let bad := st.xlin.any (fun l => l.1 > n 2) ||
+                 st.xlin.any (fun l => l.2.2.1 == n 3 && l.2.2.2 ≥ n 4)
+      let v := if bad then [s!"SPEC-VIOL {st.line} class=stress-order-not-real-time producer={n 3} seq={n 4} begin={n 1} end={n 2}"] else []
+      ({ st with xlin := st.xlin ++ [(n 1, n 2, n 3, n 4)], specViol := st.specViol + v.length },
+        ["send", "0", toks.getD 5 "", toks.getD 6 "", "pid:" ++ toks.getD 7 "", toks.getD 8 ""], v)
+    else (st, toks, [])
   let (snap', snapR', snapV) := snapCheck st toks opS.trimAscii.toString implS
   let st := { st with snap := snap', snapRestart := snapR' }
-  let msgs0 := match snapV with
+  let msgs0 := linMsgs ++ match snapV with
     | none => []
     | some cls => [s!"SPEC-VIOL {st.line} class={cls} op={opS.trimAscii.toString} expected=(its own earlier answer) impl={implS}"]
   let st := { st with specViol := st.specViol + msgs0.length }
   match parseAOp st.enc toks (implS.splitOn " ") with
   | none =>                                -- not modelled (connection handling, ls, scan, …)
     if toks.headD "" == "ls" then
-      let v := sizeVsFiles st implS
+      let v := if st.relaxed then [] else sizeVsFiles st implS
       ({ st with specViol := st.specViol + v.length }, msgs0 ++ v)
+    else if toks.headD "" == "hold" then ({ st with held := true, settled := !st.nowait, cov := bump st.cov "op:hold" }, msgs0)
+    else if toks.headD "" == "release" then ({ st with held := false, settled := true }, msgs0)
+    else if toks.headD "" == "settle" then ({ st with settled := !st.held }, msgs0)
+    else if toks.headD "" == "stress" then
+      let st := { st with cov := bump st.cov "op:stress", xacks := [], xlin := [], xpolls := [] }
+      if implS.startsWith "ok" then (st, msgs0)
+      else ({ st with specViol := st.specViol + 1 }, msgs0 ++ [s!"SPEC-VIOL {st.line} class=stress-failed impl={implS}"])
+    else if toks.headD "" == "x-ack" then
+      -- x-ack <b> <e> <producer> <seq> <s> <t> <pid> <msgs>
+      let n (i : Nat) : Nat := (toks.getD i "").toNat?.getD 0
+      let st := { st with xacks := st.xacks ++ [(n 1, n 2, n 3, n 4, idsOfSpec (toks.getD 8 ""))], cov := bump st.cov "x:ack" }
+      if implS == "ok" then (st, msgs0)
+      else ({ st with specViol := st.specViol + 1 }, msgs0 ++ [s!"SPEC-VIOL {st.line} class=stress-send-error op={opS.trimAscii.toString} impl={implS}"])
+    else if toks.headD "" == "x-poll" then
+      -- x-poll <b> <e> <s> <t> <pid> <off> <count>
+      let n (i : Nat) : Nat := (toks.getD i "").toNat?.getD 0
+      let empty := ((implS.splitOn " ").getD 3 "") == ""
+      ({ st with xpolls := st.xpolls ++ [(n 1, n 2, n 6, n 7, implS)],
+                 cov := bump st.cov (if empty then "x:poll-empty" else "x:poll-nonempty") }, msgs0)
+    else if toks.headD "" == "x-end" then
+      -- x-end <s> <t> <pid>
+      let key : Option PKey := do
+        let si ← parseIdent (toks.getD 1 ""); let ti ← parseIdent (toks.getD 2 "")
+        let pid ← (toks.getD 3 "").toNat?
+        (resolvePart st.sys si ti pid).map (·.1)
+      let final := match key.bind st.spec.get with
+        | some sp => sp.msgs
+        | none => []
+      let v := stressJudge st final
+      -- how concurrent was it: polls that overlapped a send in real time
+      let overl := st.xpolls.filter (fun p => st.xacks.any (fun a => a.1 < p.2.1 && p.1 < a.2.1))
+      let cov := (st.cov ++ [("x:polls-overlapping-a-send", overl.length)])
+      ({ st with specViol := st.specViol + v.length, xacks := [], xlin := [], xpolls := [], cov := cov }, msgs0 ++ v)
     else if toks.headD "" == "raw-send" then
       -- C13: a frame that is not a valid request is answered with an error status, a closed
       -- connection, or silence (the server is waiting for the rest of a declared length)
@@ -646,8 +778,23 @@ def stepLine (st : St) (raw : String) : St × List String :=
           msgs0 ++ [s!"SPEC-VIOL {st.line} class=secret-in-clear op={opS.trimAscii.toString} impl={implS}"])
       else (st, msgs0)
     else (st, msgs0)
-  | some aop =>
+  | some aop0 =>
+    -- no-wait confirmation with batches still on their way to the log: a poll returns a prefix of the
+    -- specification's answer; an auto-committing poll stores the offset of the last message it returned
+    let relaxedPoll := st.relaxed && toks.headD "" == "poll"
+    let (aop, follow) : AOp × Option AOp := match relaxedPoll, aop0 with
+      | true, .core cn (.poll c si ti pid cons k count true) =>
+        let lastOff : Option Nat := match implS.splitOn " " with
+          | "ok" :: _ :: _ :: l :: _ => ((l.splitOn ",").getLast?.bind (fun e => ((e.splitOn ":").headD "").toNat?))
+          | _ => none
+        (.core cn (.poll c si ti pid cons k count false),
+         lastOff.map (fun o => AOp.core cn (.storeOffset c si ti pid cons o)))
+      | _, a => (a, none)
     let (asys', out, effs) := stepA st.asys aop
+    let (asys', effs) := match follow with
+      | some a2 => let r := stepA asys' a2; (r.1, effs ++ r.2.2)
+      | none => (asys', effs)
+    let st := if st.nowait && toks.headD "" == "send" then { st with settled := false } else st
     -- the oracles below judge the data plane: they look at authorised core operations only
     let op : Op := match aop, out with
       | .core _ o, .err "unauthenticated" => (match o with | .clock t => .clock t | _ => .stats)
@@ -670,7 +817,7 @@ def stepLine (st : St) (raw : String) : St × List String :=
       | .created .. => "part-created" | .deleted .. => "part-deleted" | .appended .. => "appended"
       | .purged .. => "purged" | .dropped .. => "retention-dropped" | .restarted .. => "part-restarted"
       | .setExpiry .. => "expiry-set" | .offStored .. => "offset-stored" | .offDeleted .. => "offset-deleted"))) cov
-    let msgs1 := if mtxt == itxt then [] else
+    let msgs1 := if mtxt == itxt || (relaxedPoll && pollPrefixOk mtxt itxt) then [] else
       [s!"CORR-DIFF {st.line} kind={diffKind toks mtxt itxt} op={opS.trimAscii.toString} model={mtxt} impl={itxt}"]
     let extra : List String :=
       authzCheck st aop opS.trimAscii.toString itxt ++ gateCheck st op itxt ++ retentionCheck st effs ++
@@ -688,7 +835,9 @@ def stepLine (st : St) (raw : String) : St × List String :=
           | .ok s, some (tid, _, size, parts) => ((s.id, tid), (size, parts)) :: lastTopic.filter (fun e => e.1 ≠ (s.id, tid))
           | _, _ => lastTopic)
       | _ => lastTopic
-    let sv := specCheck st op itxt
+    let sv := match specCheck st op itxt with
+      | some (cls, exp) => if relaxedPoll && pollPrefixOk exp itxt then none else some (cls, exp)
+      | none => none
     let msgs2 := match sv with
       | none => []
       | some (cls, exp) =>
@@ -710,7 +859,7 @@ def parseCfg (line : String) : St :=
   let scfg : SCfg := { deleteOldest := kvGet kv "delete_oldest" "0" == "1",
                        defaultExpiry := optN "default_expiry" "never",
                        defaultMax := optN "default_max" "unlimited" }
-  { enc := if kvGet kv "enc" "-" == "-" then 0 else 28,
+  { enc := if kvGet kv "enc" "-" == "-" then 0 else 28, nowait := kvGet kv "confirm" "wait" == "nowait",
     asys := ASys.init (Sys.init cfg scfg (n "clock" "0")) (n "pat_max" "100"), spec := [] }
 
 partial def loop (h : IO.FS.Stream) (st : St) : IO St := do
